@@ -2012,6 +2012,7 @@ fn main() {
 					if st.compaction_moved_tail {
 						run.count("chain_compaction_reorg_scenarios_with_effective_compaction", 1);
 					}
+					run.count("chain_compaction_reorg_old_outputs_whose_sibling_was_pruned_before", st.half_pairs_spent as u64);
 					run.eval(&format!("chain;compaction_reorg;depth={};pairs={}", depth, st.pairs_spent), true);
 				}
 				Ok(Err((clause, what, replay))) => {
